@@ -600,6 +600,7 @@ func (U *Universe) emitDeclsWith(bundleDecls string) string {
 		fmt.Fprintf(&b, "(assert (forall ((x %[1]s) (v %[2]s)) (! (= (%[1]s.cat x (%[1]s.snoc %[1]s.empty v)) (%[1]s.snoc x v)) :pattern ((%[1]s.cat x (%[1]s.snoc %[1]s.empty v))))))\n", s, e)
 		fmt.Fprintf(&b, "(assert (forall ((x %[1]s)) (! (and (= (%[1]s.cat x %[1]s.empty) x) (= (%[1]s.cat x %[1]s.nil) x)) :pattern ((%[1]s.cat x %[1]s.empty)) :pattern ((%[1]s.cat x %[1]s.nil)))))\n", s)
 		fmt.Fprintf(&b, "(assert (forall ((x %[1]s) (y %[1]s) (v %[2]s)) (! (= (%[1]s.cat x (%[1]s.snoc y v)) (%[1]s.snoc (%[1]s.cat x y) v)) :pattern ((%[1]s.cat x (%[1]s.snoc y v))))))\n", s, e)
+		fmt.Fprintf(&b, "(assert (forall ((x %[1]s)) (! (= (%[1]s.cat %[1]s.empty x) x) :pattern ((%[1]s.cat %[1]s.empty x)))))\n", s)
 		fmt.Fprintf(&b, "(assert (forall ((x %[1]s) (lo Int) (hi Int)) (! (=> (and (<= 0 lo) (<= lo hi) (<= hi (%[1]s.len x))) (= (%[1]s.len (%[1]s.sub x lo hi)) (- hi lo))) :pattern ((%[1]s.sub x lo hi)))))\n", s)
 		fmt.Fprintf(&b, "(assert (forall ((x %[1]s) (lo Int) (hi Int) (i Int)) (! (=> (and (<= 0 lo) (<= lo hi) (<= hi (%[1]s.len x)) (<= 0 i) (< i (- hi lo))) (= (%[1]s.at (%[1]s.sub x lo hi) i) (%[1]s.at x (+ lo i)))) :pattern ((%[1]s.at (%[1]s.sub x lo hi) i)))))\n", s)
 		fmt.Fprintf(&b, "(assert (forall ((x %[1]s)) (! (= (%[1]s.sub x 0 (%[1]s.len x)) x) :pattern ((%[1]s.sub x 0 (%[1]s.len x))))))\n", s)
@@ -836,6 +837,7 @@ func (U *Universe) preRegister() {
 	}
 	U.sliceSort(types.Typ[types.String])
 	U.sliceSort(types.Universe.Lookup("any").Type())
+	U.derefHeap(types.Universe.Lookup("any").Type())
 	// json.Number flows through interfaces in evaluateMatchExpression
 	for _, imp := range U.P.Bexpr.Pkg.Imports() {
 		if imp.Path() == "encoding/json" {
